@@ -454,7 +454,27 @@ class Expander:
                 return n
 
         self_ = self
-        return T(depth, skip).visit(copy.deepcopy(node))
+        out = T(depth, skip).visit(copy.deepcopy(node))
+        return _IndexToElem().visit(out)
+
+
+class _IndexToElem(ast.NodeTransformer):
+    """`Y[i]` with i the loop variable of `for i in range(len(X))` (expanded: `Y[__elem__(range(len(X)))]`) is the element of Y at the position the loop is at,
+    i.e. what `for y in Y` / `zip(..., Y, ...)` binds: `__elem__(Y)`.  Index loops and zip loops over parallel sequences are then the same construct."""
+
+    def visit_Subscript(self, n):
+        self.generic_visit(n)
+        s = n.slice
+        if isinstance(s, ast.Call) and isinstance(s.func, ast.Name) and s.func.id == "__elem__" and len(s.args) == 1:
+            r = s.args[0]
+            if isinstance(r, ast.Call) and isinstance(r.func, ast.Name) and r.func.id == "range" and len(r.args) == 1:
+                a = r.args[0]
+                is_len = isinstance(a, ast.Call) and isinstance(a.func, ast.Name) and a.func.id == "len" and len(a.args) == 1
+                is_shape0 = isinstance(a, ast.Subscript) and isinstance(a.value, ast.Attribute) and a.value.attr == "shape" and isinstance(a.slice, ast.Constant) and \
+                    a.slice.value == 0
+                if (is_len or is_shape0) and isinstance(n.ctx, ast.Load):
+                    return ast.Call(func=ast.Name(id="__elem__", ctx=ast.Load()), args=[n.value], keywords=[])
+        return n
 
 
 def simple_helper(fd: ast.FunctionDef) -> bool:
